@@ -164,6 +164,7 @@ INJECT = [
     ("native/merge_dedup_part.rs", "src/engine/operators/merge_deduplicate_partitioned.rs", "verif_nat_merge_dedup_part", ("native",)),
     ("native/data_types.rs", "src/engine/data_types/data.rs", "verif_nat_data_types", ("native",)),
     ("native/inner_locustdb.rs", "src/scheduler/inner_locustdb.rs", "verif_nat_inner_locustdb", ("native",)),
+    ("native/server.rs", "src/server/mod.rs", "verif_nat_server", ("native",)),
 ]
 
 
